@@ -15,7 +15,8 @@ Layouts == { <<[name |-> "mesh", pos |-> 1]>>,
              <<[name |-> "mesh", pos |-> 1], [name |-> "part", pos |-> 2], [name |-> "hydro", pos |-> 0]>>,
              <<[name |-> "mesh", pos |-> 3], [name |-> "part", pos |-> 1], [name |-> "sink", pos |-> 4], [name |-> "extra", pos |-> -1]>>,
              <<[name |-> "mesh", pos |-> 2], [name |-> "part", pos |-> 3]>>,
-             <<[name |-> "part", pos |-> 1], [name |-> "mesh", pos |-> 3]>> }        \* same row counts, own positions differ from the mesh's
+             <<[name |-> "part", pos |-> 1], [name |-> "mesh", pos |-> 3]>>,         \* same row counts, own positions differ from the mesh's
+             <<[name |-> "part", pos |-> 1], [name |-> "tags", pos |-> -2]>> }       \* no mesh at all: a group without positions (same row count as part) is ignored
 Origins == {<<0,0,0>>, <<1,0,0>>, <<3,4,0>>}
 Radii == {1, 5, 6, 13, 100}             \* 5 and 13: rows exactly on the sphere
 Boxes == {<<2,2,2>>, <<10,8,2>>, <<12,16,16>>, <<200,200,200>>, <<6,8,0>>}      \* full sizes; rows exactly on a face
@@ -24,8 +25,8 @@ AbsI(x) == IF x < 0 THEN -x ELSE x
 InSphere(p, o, r) == Sq(p[1] - o[1]) + Sq(p[2] - o[2]) + Sq(p[3] - o[3]) < Sq(r)
 InBox(p, o, b) == \A d \in 1..3 : 2 * AbsI(p[d] - o[d]) <= b[d]
 MeshPos(lay) == LET i == CHOOSE i \in 1..Len(lay) : lay[i].name = "mesh" IN lay[i].pos
-PosOf(lay, g) == IF g.pos > 0 THEN Pts[g.pos] ELSE IF g.pos = 0 THEN Pts[MeshPos(lay)] ELSE <<>>      \* -1: a group of another length without position
-Rows(lay, g, inside(_)) == IF g.pos = -1 THEN <<>> ELSE SelectSeq([k \in 1..Len(PosOf(lay, g)) |-> k], LAMBDA k : inside(PosOf(lay, g)[k]))
+PosOf(lay, g) == IF g.pos > 0 THEN Pts[g.pos] ELSE IF g.pos = 0 THEN Pts[MeshPos(lay)] ELSE <<>>      \* -1 / -2: a group without usable position
+Rows(lay, g, inside(_)) == IF g.pos < 0 THEN <<>> ELSE SelectSeq([k \in 1..Len(PosOf(lay, g)) |-> k], LAMBDA k : inside(PosOf(lay, g)[k]))
 Expected(lay, inside(_)) == [i \in 1..Len(lay) |-> [name |-> lay[i].name, rows |-> Rows(lay, lay[i], inside), present |-> Rows(lay, lay[i], inside) # <<>>]]
 VARIABLE sc
 Init == sc = [kind |-> "none"]
@@ -35,7 +36,7 @@ Exp == IF sc.kind = "sphere" THEN LET f(p) == InSphere(p, sc.o, sc.r) IN Expecte
        ELSE LET f(p) == InBox(p, sc.o, sc.b) IN Expected(sc.lay, f)
 \* every kept row is inside, every dropped row is not; groups are present iff they keep a row
 Sound == sc.kind = "none" \/ \A i \in 1..Len(sc.lay) : LET g == sc.lay[i] e == Exp[i] IN
-           g.pos # -1 => \A k \in 1..Len(PosOf(sc.lay, g)) :
+           g.pos >= 0 => \A k \in 1..Len(PosOf(sc.lay, g)) :
               (\E j \in 1..Len(e.rows) : e.rows[j] = k) <=> (IF sc.kind = "sphere" THEN InSphere(PosOf(sc.lay, g)[k], sc.o, sc.r) ELSE InBox(PosOf(sc.lay, g)[k], sc.o, sc.b))
 Emit == sc.kind = "none" \/ PrintT(ToJson([sc |-> sc, pts |-> [i \in 1..Len(sc.lay) |-> PosOf(sc.lay, sc.lay[i])], exp |-> Exp]))
 ====
